@@ -64,7 +64,7 @@ fn case(rng: &mut Rng, out: &mut CaseOut) {
     };
     let poison = rng.chance(1, 2);
     let _p = Poison::new(poison, rng.next_u64());
-    let a = if long.is_some() { (0..k).map(|_| rng.bytes(size)).collect() } else { gen::originals(rng, k, size) };
+    let a = if long.is_some() { (0..k).map(|_| rng.bytes(size)).collect() } else { gen::originals_for(rng, rate, k, r, size) };
     // b: another data set, or (a quarter of the cases) the delta of a small
     // update - a few bytes in one or two shards, everything else zero
     let delta = match long {
